@@ -125,12 +125,7 @@ Example small_multiples :
   public_key secp256r1 0 = Infinite.
 Proof. vm_compute. repeat split. Qed.
 
-(* Core specification Vol 2 Part G 7.1.2.1 (P-256 data set 1): private A, public B -> DHKey.
-   One full-size scalar multiplication in the kernel: slow (tens of seconds). *)
-Example spec_p256_dhkey :
-  ecdh secp256r1
-    0x3f49f6d4a3c55f3874c9b3e3d2103f504aff607beb40b7995899b8a6cd3c1abd
-    0x1ea1f0f01faf1d9609592284f19e4c0047b58afd8615a69f559077b22faaa190
-    0x4c55f33e429dad377356703a9ab85160472d1130e28e36765f89aff915b1214a
-  = Secret (to_be 32 0xec0234a357c8ad05341010a60a397d9b99796b13b4f866f1868d34f373bfa698).
-Proof. vm_compute. reflexivity. Qed.
+(* The Core specification P-256 data sets (full-size private keys) are not evaluated in this
+   file: one 256-bit scalar multiplication costs tens of seconds under vm_compute and far more
+   under coqchk.  The harness evaluates them (thorough tier) against the implementation, whose
+   result the oracle compares with the specification's DHKey. *)
